@@ -1,0 +1,173 @@
+//go:build verif
+
+package kmerindex
+
+// Bounded stand-ins for the index-content and bit-arithmetic clauses of C10. Only compiled with -tags verif.
+
+import (
+	"fmt"
+	"os"
+	"strings"
+	"testing"
+
+	"github.com/biogo/biogo/alphabet"
+	"github.com/biogo/biogo/seq/linear"
+)
+
+func verifWords(k int) []string {
+	words := []string{""}
+	for i := 0; i < k; i++ {
+		var next []string
+		for _, w := range words {
+			for _, c := range "acgt" {
+				next = append(next, w+string(c))
+			}
+		}
+		words = next
+	}
+	return words
+}
+
+func verifRevComp(w string) string {
+	comp := map[byte]byte{'a': 't', 'c': 'g', 'g': 'c', 't': 'a'}
+	out := make([]byte, len(w))
+	for i := range w {
+		out[len(w)-1-i] = comp[w[i]]
+	}
+	return string(out)
+}
+
+// TestVerifBounded_C10_Words: encoding, formatting, GC fraction and reverse complement agree with the string operations
+// for every word of every supported small k.
+func TestVerifBounded_C10_Words(t *testing.T) {
+	cases, nontrivial := 0, 0
+	maxK := 8
+	if os.Getenv("VERIF_TIER") == "thorough" {
+		maxK = 10
+	}
+	lookUp := alphabet.DNA.LetterIndex()
+	for k := 4; k <= maxK; k++ {
+		for _, w := range verifWords(k) {
+			cases++
+			nontrivial++
+			km, err := KmerOf(k, lookUp, w)
+			if err != nil {
+				t.Fatalf("KmerOf(%q): %v", w, err)
+			}
+			if up, err := KmerOf(k, lookUp, strings.ToUpper(w)); err != nil || up != km {
+				t.Fatalf("KmerOf is case sensitive for %q", w)
+			}
+			if s, err := Format(km, k, alphabet.DNA); err != nil || s != w {
+				t.Fatalf("Format(KmerOf(%q)) = %q, %v", w, s, err)
+			}
+			rc, _ := KmerOf(k, lookUp, verifRevComp(w))
+			if got := ComplementOf(k, km); got != rc {
+				t.Fatalf("ComplementOf(%q) = %d, reverse complement %q encodes to %d", w, got, verifRevComp(w), rc)
+			}
+			gc := strings.Count(w, "g") + strings.Count(w, "c")
+			if got := GCof(k, km); got != float64(gc)/float64(k) {
+				t.Fatalf("GCof(%q) = %v, want %d/%d", w, got, gc, k)
+			}
+		}
+		if _, err := KmerOf(k, lookUp, strings.Repeat("a", k-1)+"n"); err == nil {
+			t.Fatalf("KmerOf accepts an invalid letter")
+		}
+	}
+	fmt.Printf("BOUNDED name=C10.words cases=%d nontrivial=%d exhaustive=true domain=%q\n", cases, nontrivial, fmt.Sprintf("all 4^k words for k in 4..%d (both cases)", maxK))
+}
+
+// TestVerifBounded_C10_Index: positions and frequencies for every sequence of a small scope.
+func TestVerifBounded_C10_Index(t *testing.T) {
+	cases, nontrivial := 0, 0
+	oldMin := MinKmerLen
+	MinKmerLen = 2
+	defer func() { MinKmerLen = oldMin }()
+	maxLen := 5
+	if os.Getenv("VERIF_TIER") == "thorough" {
+		maxLen = 7
+	}
+	letters := "acgtnA"
+	var seqs []string
+	var gen func(p string)
+	gen = func(p string) {
+		if len(p) >= 3 {
+			seqs = append(seqs, p)
+		}
+		if len(p) == maxLen {
+			return
+		}
+		for _, c := range letters {
+			gen(p + string(c))
+		}
+	}
+	gen("")
+	// some longer structured inputs
+	seqs = append(seqs, strings.Repeat("acgt", 40), strings.Repeat("aacnggtA", 25), strings.Repeat("n", 30)+"acgtacgt")
+	for _, text := range seqs {
+		for _, k := range []int{2, 3, 5} {
+			if k+1 > len(text) {
+				continue
+			}
+			cases++
+			s := linear.NewSeq("s", alphabet.BytesToLetters([]byte(text)), alphabet.DNA)
+			ki, err := New(k, s)
+			if err != nil {
+				t.Fatalf("New(%d, %q): %v", k, text, err)
+			}
+			low := strings.ToLower(text)
+			want := map[string][]int{}
+			for p := 0; p+k <= len(low); p++ {
+				w := low[p : p+k]
+				if strings.Contains(w, "n") {
+					continue
+				}
+				want[w] = append(want[w], p)
+			}
+			if len(want) > 0 {
+				nontrivial++
+			}
+			freq, ok := ki.KmerFrequencies()
+			if !ok {
+				t.Fatal("no frequencies before Build")
+			}
+			for _, w := range verifWords(k) {
+				km, _ := ki.KmerOf(w)
+				if freq[km] != len(want[w]) {
+					t.Fatalf("%q k=%d: frequency of %q is %d, occurs %d times", text, k, w, freq[km], len(want[w]))
+				}
+			}
+			ki.Build()
+			for _, w := range verifWords(k) {
+				got, err := ki.KmerPositionsString(w)
+				if err != nil {
+					t.Fatalf("%q k=%d: positions of %q: %v", text, k, w, err)
+				}
+				if fmt.Sprint(got) != fmt.Sprint(want[w]) && !(len(got) == 0 && len(want[w]) == 0) {
+					t.Fatalf("%q k=%d: positions of %q are %v, want %v", text, k, w, got, want[w])
+				}
+			}
+			// iteration over every sub-range visits exactly the valid windows in increasing order
+			if len(text) <= 6 {
+				for start := 0; start+k-1 <= len(text); start++ {
+					for end := start; end <= len(text); end++ {
+						var visited []int
+						err := ki.ForEachKmerOf(s, start, end, func(_ *Index, pos, _ int) { visited = append(visited, pos) })
+						if err != nil {
+							t.Fatalf("ForEachKmerOf(%q,%d,%d): %v", text, start, end, err)
+						}
+						var exp []int
+						for p := start; p+k <= end; p++ {
+							if !strings.Contains(low[p:p+k], "n") {
+								exp = append(exp, p)
+							}
+						}
+						if fmt.Sprint(visited) != fmt.Sprint(exp) {
+							t.Fatalf("ForEachKmerOf(%q,%d,%d) k=%d visited %v, want %v", text, start, end, k, visited, exp)
+						}
+					}
+				}
+			}
+		}
+	}
+	fmt.Printf("BOUNDED name=C10.index cases=%d nontrivial=%d exhaustive=true domain=%q\n", cases, nontrivial, fmt.Sprintf("all sequences over {a,c,g,t,n,A} of length 3..%d plus 3 structured long inputs, k in {2,3,5} (MinKmerLen lowered), every word, every sub-range for length <= 6", maxLen))
+}
